@@ -190,6 +190,7 @@ func drivePubBurst(c *ctx) error {
 		"blocked subscriber callback, then released; every subscriber's complete log is compared with the log the model prescribes (closes of one call sorted); " +
 		"non-trivial = at least 10 events delivered; distinct = distinct terms"
 	add := func(pc pubCase, tag string) {
+		c.inflight(pc)
 		logs, nev, to := runPubBurst(pc)
 		if to {
 			logs, nev, to = runPubBurst(pc) // a wait that expired on a loaded machine: once more
